@@ -122,7 +122,7 @@ def build_cases(tier, seed):
     tail = [["flush", "1", "1", "0"], ["flushwait", "1"], ["get", b"k1".hex()], ["get", b"k2".hex()]]
     for name, th, ops in directed_scripts():
         cases.append((name, "directed", th, ops if name.startswith("d-stale") else ops + tail))
-    n = {"quick": 700, "thorough": 12000}.get(tier, 700)
+    n = {"quick": 2500, "thorough": 12000}.get(tier, 2500)
     classes = ["rand", "rand", "force", "thresh", "err", "staging", "stale"]
     for i in range(n):
         cls = classes[i % len(classes)]
@@ -281,7 +281,7 @@ def run_buffer(tier, seed, v, stats, replay_case=None):
     os.makedirs(d, exist_ok=True)
     cf = os.path.join(d, "cases-%s-%d.txt" % (tier, seed))
     write_casefile(cases, cf)
-    rc, trace = vlib.sh([exe, cf], timeout=900)
+    rc, trace = vlib.sh([exe, cf], timeout=240)
     if rc != 0:
         v.violation({"kind": "harness", "correspondence": "pipelined buffer driver", "error": "rc=%d %s" % (rc, trace[-800:])}, has_input=False)
         return
